@@ -288,6 +288,15 @@ impl<'a, R: RealNumberInternalTrait> Interpreter<'a, R> {
                 ));
             }
             match procedure {
+                Procedure::Builtin(BuiltinProcedure {
+                    body: BuiltinProcedureBody::Apply,
+                    ..
+                }) => {
+                    // (apply proc args) continues the loop with proc: a tail call
+                    let (applied_procedure, applied_args) = spread_apply_arguments(args)?;
+                    current_procedure = Some(applied_procedure);
+                    args = applied_args;
+                }
                 Procedure::Builtin(BuiltinProcedure { body, .. }) => {
                     break body.apply(args, env);
                 }
